@@ -113,10 +113,14 @@ PLANS["C11"] = {
     "assumptions": CONV_ASSUME,
     "quick": [step("rel+rayon", "firv-core", 32000, args=["--pool", "5"], tag="pool5", seed_offset=7000), step("rel", "firv-core", 160000), step("asan", "firv-core", 16000), step("miri", "firv-core", 320, shards=16, timeout=3000),
               # the edge-flush geometry through cropped / nested / dynamic source containers (their own row stepping)
-              step("rel", "firv-views", 48000, sub="nearest_edge", prop_arg="C13")],
+              step("rel", "firv-views", 48000, sub="nearest_edge", prop_arg="C13"),
+              # the same with user-defined views whose row slices are 2 pixels longer than the width (the trait's contract allows it;
+              # Nearest honours it - convolution does not, see DESIGN.md section 3)
+              step("rel", "firv-views", 24000, sub="nearest_edge", prop_arg="C13", env={"FIRV_USER_PAD": "2"}, tag="padded", seed_offset=3000)],
     "thorough": [step("rel+rayon", "firv-core", 320000, args=["--pool", "5"], tag="pool5", seed_offset=7000, timeout=7200), step("rel", "firv-core", 4000000, timeout=7200), step("asan", "firv-core", 400000, timeout=7200),
                  step("miri", "firv-core", 3200, shards=16, timeout=14000),
-                 step("rel", "firv-views", 1000000, sub="nearest_edge", prop_arg="C13", timeout=7200)],
+                 step("rel", "firv-views", 1000000, sub="nearest_edge", prop_arg="C13", timeout=7200),
+                 step("rel", "firv-views", 500000, sub="nearest_edge", prop_arg="C13", env={"FIRV_USER_PAD": "2"}, tag="padded", seed_offset=3000, timeout=7200)],
 }
 FLOORS["C11"] = {"quick": [
     (">= 5000 sub-pixel edge-flush cases", lambda o: o["counters"]["subpixel_edge_flush_cases"] >= 5000),
